@@ -19,6 +19,7 @@ struct M_lock { char _unused; };                     /* sequential semantics: lo
 struct M_vec_voidp { unsigned long len; void **elem; unsigned long cap; };   /* std::vector<void*> as a sequence view: elem[0..len), capacity cap */
 struct M_map_str_voidp { int _opaque; };             /* std::map<std::string, void*>: only through map_* stubs */
 
+int vstd_uncaught_exceptions(void);   /* no body: arbitrary result */
 #include "stdmodel_vec.h"
 
 #endif
